@@ -49,6 +49,60 @@ CLAIMS = {
         "technique": "Lean 4 proof of decision logic + exhaustive exact accept/reject correspondence over package exports",
         "design_ref": "DESIGN.md §5 C20",
     },
+    "C01": {
+        "text": "Lean theorems (general D): plane waves are eigenfunctions of the documented operator with eigenvalue "
+                "polySymbol and E0step(exp_term t lambda) solves u_t = Op u for every t (regenerated ETDRK0 code); semigroup "
+                "(n steps of dt = one step of n*dt) and inverse (-dt undoes dt); Hermitian symmetry is preserved; closed forms of "
+                "the documented symbols of advection / diffusion (matrix) / advection-diffusion / dispersion and hyper-diffusion "
+                "(both mixing flags) / general linear family; the wave stepper per mode is the exact rotation, DC drift, its ODE, "
+                "group law; rfftn/irfftn round trip for all D>=1, N>=1. Correspondence: every linear class's operator array vs "
+                "polySymbol of the documented operator and the whole step vs the model, dt in {1e-3,1,1e3,-0.3}; Wave per mode. The "
+                "D-dimensional assembly 'state = sum of modes' is proved in Lean for D=1 read-off only (stated in Properties/C01).",
+        "technique": "Lean 4 proof (symbol algebra, exact ODE solution per mode, DFT round trip) + model/implementation correspondence",
+        "design_ref": "DESIGN.md §5 C01",
+    },
+    "C04": {
+        "text": "Lean theorems for all N: fftfreq layout (congruence, band, injective, surjective, Nyquist), low-pass / sphere / "
+                "oddball masks select exactly the documented modes, mode slices partition the stored indices by the signs of the "
+                "leading wavenumbers (all D>=1, N>=2), scaling arrays in closed form N^D/2^#halved, grid left-inclusive / "
+                "right-exclusive with spacing L/N, flat<->multi index bijection; DFT: irfftn(rfftn u)=u for every real u, all D>=1, "
+                "N>=1; single-mode read-off a cos(2 pi k x/L+phi) (1-D, incl. DC/Nyquist); Parseval in the half layout. "
+                "Correspondence: exhaustive exact comparison of wavenumbers, scalings, masks (every cutoff), slices for all N in "
+                "range x D in 1..3; rfftn/irfftn (non-Hermitian input too), make_grid, wrap_bc. Oracle: every wavenumber vector of "
+                "the layout as a single mode; ij/xy consistency.",
+        "technique": "Lean 4 proof (integer layout + DFT theory) + exhaustive exact correspondence",
+        "design_ref": "DESIGN.md §5 C04",
+    },
+    "C10": {
+        "text": "Lean theorems at every stored mode, general D: the Leray projection output has zero spectral divergence, is "
+                "idempotent, is the identity on divergence-free input, is the matrix delta - d d^T/Lap; the 3-D rotational "
+                "convection term is divergence-free for every input, with and without Kolmogorov injection; every regenerated "
+                "ETDRK stage formula (orders 0-4) maps divergence-free spectra to divergence-free spectra for any nonlinear map with "
+                "divergence-free output, hence any rollout length. Correspondence: Leray, make_incompressible, ProjectedConvection3d, "
+                "NavierStokesVelocity, KolmogorovFlowVelocity vs the model.",
+        "technique": "Lean 4 proof (per-mode linear algebra + induction over ETDRK stages / rollout) + correspondence",
+        "design_ref": "DESIGN.md §5 C10",
+    },
+    "C11": {
+        "text": "Lean theorems: |exp_term dt lambda| = exp(dt Re lambda) (regenerated code), <=1 / =1 / <1 by the sign of Re lambda; "
+                "Re of the documented symbols: advection and dispersion (both forms) 0, diffusion <=0 for PSD matrices, "
+                "hyper-diffusion (both forms) real <=0 and <0 off the mean mode, general linear family; Parseval in the half layout "
+                "(all D, N) and contraction of the weighted spectral energy; wave energy per mode conserved; per-step bound lifts "
+                "to any rollout. The c2r projection step for non-Hermitian spectra is not proved (named in Properties/C11). "
+                "Correspondence: linear steppers on white noise with dt up to 1e6 vs the model.",
+        "technique": "Lean 4 proof (norm of the propagator, symbol signs, Parseval) + correspondence",
+        "design_ref": "DESIGN.md §5 C11",
+    },
+    "C17": {
+        "text": "Lean theorems on the integer form of the bins: no integer wavenumber vector lies on a bin edge (parity), a mode "
+                "is in bin b>=1 iff (2b-1)^2 < 4|k|^2 < (2b+1)^2 (i.e. round(|k|)=b), bin 0 is exactly the mean mode, a mode is in "
+                "at most one bin, modes outside the Nyquist sphere are in none, on-axis modes make every bin non-empty. "
+                "Correspondence: the bin of every stored mode (exact) and full spectra (power/amplitude x sum/average x channels) "
+                "vs the Spectrum model. Oracle: amplitude read-off for every wavenumber vector, Parseval with the Nyquist-sphere "
+                "truncation, average = sum / count.",
+        "technique": "Lean 4 proof (integer bin arithmetic) + exact per-mode correspondence",
+        "design_ref": "DESIGN.md §5 C17",
+    },
 }
 
 PENDING_REASON = "check not built yet in this session (model and theorems planned in DESIGN.md §5); not claimed until its check exists"
